@@ -303,7 +303,7 @@ def bounded(ctx, b):
             ws = ctl(C.ctrl("ENM")) + ctl(C.ctrl("RCL")) + encode_rows(rows, dbl) + ctl(C.ctrl("EDM")) + ctl(C.ctrl("EOC"))
             doc = C.scc_document([(C.timecode(30), ws)] + ([(C.timecode(30 + len(ws) + 60), ctl(C.ctrl("EDM")))] if erased else []))
             exp = expected_from_reference(C.decode_words(ws + ctl(C.ctrl("EDM"))))
-            caps = SCCReader().read(doc).get_captions("en-US")
+            caps = _SHARED_READER.read(doc).get_captions("en-US")
             got = []
             for cp in caps:
                 lines = [norm(x) for x in cp.get_text().split("\n")]
@@ -341,7 +341,7 @@ def bounded_consecutive_captions(ctx, b):
                 (C.timecode(30), [C.ctrl("ENM"), C.ctrl("RCL"), C.pac(r1)] + C.text_words("first") + [C.ctrl("EDM"), C.ctrl("EOC")]),
                 (C.timecode(150), [C.ctrl("ENM"), C.ctrl("RCL"), C.pac(r2)] + C.text_words("second") + [C.ctrl("EDM"), C.ctrl("EOC")]),
                 (C.timecode(300), [C.ctrl("EDM")])])
-            caps = SCCReader().read(doc).get_captions("en-US")
+            caps = _SHARED_READER.read(doc).get_captions("en-US")
             got = [(cp.get_text(), [n.type_ for n in cp.nodes], round(cp.layout_info.origin.y.value, 6)) for cp in caps]
             exp = [("first", [CaptionNode.TEXT], round(5 + 90 * (r1 - 1) / 15, 6)), ("second", [CaptionNode.TEXT], round(5 + 90 * (r2 - 1) / 15, 6))]
             return got == exp, {"got": got, "expected": exp}
@@ -371,3 +371,8 @@ def run(ctx):
               "word x representative decoder states")
     ctx.assume("whole-stream equivalence with a CEA-608 decoder is bounded only; text is compared whitespace-normalised "
                "(pycaption does not reproduce the cell a mid-row code occupies)")
+
+
+# one reader object for every stream of the run: what a read returns must depend on the stream only,
+# also right after a read that raised (reader reuse)
+_SHARED_READER = SCCReader()
